@@ -1,5 +1,5 @@
 SPECIFICATION Spec
-CONSTANT MCDeep = TRUE
+CONSTANT MCDeep = FALSE
 CONSTANT MCLong = TRUE
 INVARIANT Emit
 CHECK_DEADLOCK FALSE
